@@ -4,6 +4,12 @@ import "time"
 
 var counterInstr = []string{"internal/counter", "internal/mmap"}
 
+var chainPkgs = map[string]string{
+	"internal/verifgen/ex.ample-pkg/v2":              "harness/gen/chain",
+	"internal/verifgen/deep/er/path.with.dots/chain": "harness/gen/chain",
+	"internal/verifgen/plain":                        "harness/gen/chain",
+}
+
 func props() map[string]Prop {
 	ps := []Prop{
 		{
@@ -46,6 +52,27 @@ func props() map[string]Prop {
 			Assume: []string{
 				"a process is emulated by an independent file value (own fd and MAP_SHARED mapping) driven by one virtual thread in the test process; kill = the thread is never scheduled again",
 				"interleavings at the granularity of the instrumented scheduling points; sequential consistency between points",
+			},
+		},
+		{
+			ID: "C09", Level: "exploration",
+			Units: []Unit{
+				{Name: "counter", Pkg: "internal/counter", Harness: "internal_counter", Run: "^TestVerifC09$", Instrument: counterInstr, Timeout: 30 * time.Minute},
+			},
+			Assume: []string{
+				"the clock is the CounterTime test variable and returns UTC times, as documented",
+				"civil-calendar reference arithmetic in /verif/ref (days-from-civil) is correct for 1990..2069",
+			},
+		},
+		{
+			ID: "C15", Level: "exploration",
+			Units: []Unit{
+				{Name: "stacks", Pkg: "internal/counter", Harness: "internal_counter", Run: "^TestVerifC15$", Instrument: counterInstr, Extra: chainPkgs, Timeout: 30 * time.Minute},
+				{Name: "race", Pkg: "internal/counter", Harness: "internal_counter", Run: "^TestVerifC15Race$", Instrument: counterInstr, Extra: chainPkgs, Race: true, Timeout: 30 * time.Minute},
+			},
+			Assume: []string{
+				"call stacks come from generated call programs over real functions of the test binary (no synthetic frames can be injected into runtime.CallersFrames)",
+				"the uncompressed rendering is the frame's full symbol name followed by a location of the documented shape",
 			},
 		},
 	}
